@@ -1,6 +1,7 @@
 """C16 Excel cells render as documented text and the requested sheet is read."""
 import datetime
 import os
+import re
 
 from cpverif import storage
 
@@ -19,7 +20,9 @@ ASSUMPTIONS = ["whole numbers >= 1e16 (exponent form) and dates before 1900-03-0
 
 # texts that look like what the workbook's XML uses itself (rich-text runs, character escapes, entities, CDATA): to the
 # row writer they are texts like any other (only used where cutplace is the producer)
-MARKUP_LOOK_ALIKES = ["<r>abc</r>", "<r><t>hello</t></r>", "<r> x </r>", "<t>x</t>", "_x0041_", "_x000D_", "a_x005F_b", "&lt;", "&#10;", "]]>", "<![CDATA[x]]>", "<r>", "</r>"]
+MARKUP_LOOK_ALIKES = ["<r>abc</r>", "<r><t>hello</t></r>", "<r> x </r>", "<t>x</t>", "_x0041_", "_x000D_", "a_x005F_b", "&lt;", "&#10;", "]]>", "<![CDATA[x]]>", "<r>", "</r>",
+                      "a\x01b", "<r>_x0041_</r>", "<r>a\x01b</r>"]
+ESCAPE_IN_RICH_TEXT_LOOK_ALIKE = re.compile(r"^<r>.*(_x[0-9A-Fa-f]{4}_|[\x00-\x08\x0b-\x1f]).*</r>$", re.S)
 STRINGS = ["", "a", "Hello World", "  padded  ", "=1+2", "12", "1.0", "1.50", "TRUE", "äöü €", "日本語", "line\nbreak", "a\tb", "'quoted'", "<&>", "0", "-", "1e5", "2020-01-02"]
 
 
@@ -278,7 +281,11 @@ def check_writer_roundtrip(ctx, index):
             os.remove(path)
     want = padded(table)
     shape_ok = len(got) == len(want) and all(len(g) == len(w) for g, w in zip(got, want))
-    if got != want and shape_ok and all(g == w or (w.startswith("<r>") and w.endswith("</r>")) for gr, wr in zip(got, want) for g, w in zip(gr, wr)):
+    if got != want and shape_ok and all(g == w or ESCAPE_IN_RICH_TEXT_LOOK_ALIKE.match(w) for gr, wr in zip(got, want) for g, w in zip(gr, wr)):
+        # the only cells that differ look like a rich-text run and hold a control character or an _xHHHH_ sequence
+        ctx.violation("C16:writer-roundtrip-differs:escape-inside-text-that-looks-like-a-rich-text-run", case,
+                      "a text of the form <r>...</r> that holds a control character or a literal _xHHHH_ sequence does not read back identically", expected=want, observed=got)
+    elif got != want and shape_ok and all(g == w or (w.startswith("<r>") and w.endswith("</r>")) for gr, wr in zip(got, want) for g, w in zip(gr, wr)):
         # the only cells that differ are texts that look like the XML of a rich-text run
         ctx.violation("C16:writer-roundtrip-differs:text-that-looks-like-a-rich-text-run", case, "a text of the form <r>...</r> written with XlsxRowWriter does not read back identically", expected=want, observed=got)
     elif got != want and limit_case:
